@@ -9,6 +9,7 @@ CONSTANTS
   MaxObjs = 5
   Parents = {"none", "str"}
   Fmts = {"F1", "F2", "F3"}
+  BadOverrides = TRUE
   SecondReport = TRUE
   Variant = "impl"
 INVARIANT ExactlyOnce
